@@ -157,7 +157,9 @@ def op_sample(rng, flags=None, thd=None, uhdr=None, udata=None, extra=None, acti
         inner.insert(rng.randrange(len(inner) + 1), x)
     if flags is None:
         flags = (1 if thd is not None else 0) | (8 if uhdr is not None else 0)
-    return {'k': 'sys', 'name': 'PERF_Event', 's': [flags, actionid, 0, 0], 'e': [flags, actionid, 0, 0], 'in': inner}
+    # (the END record's other words are whatever the sampler left there: a pending-work mask, a count, nothing)
+    return {'k': 'sys', 'name': 'PERF_Event', 's': [flags, actionid, 0, 0],
+            'e': [flags, actionid, rng.pick([0, 0, 1, 8, rng.word()]), rng.pick([0, 0, rng.word()])], 'in': inner}
 
 
 def draw_uuid(rng):
